@@ -3,7 +3,8 @@
 # none may report a violation or a tool error
 ROOT=/tmp/sv
 cd /verif && tools/seediso.sh >/dev/null
-for d in /verif/seeded/benign/*.diff; do
+DIR=${1:-/verif/seeded/benign}
+for d in $DIR/*.diff; do
   n=$(basename $d .diff)
   git -C $ROOT/repo apply $d || { echo "$n: does not apply"; continue; }
   t=$(cd $ROOT/repo && cargo test --workspace --no-fail-fast --offline --tests 2>&1 | grep -E "^test result" | awk '{p+=$4; f+=$6} END {print p"/"f}')
